@@ -42,11 +42,16 @@ def run(ctx):
     r = common.run_impl("create_run.py", {"n": ctx.scale(6, 40), "seed": ctx.seed})
     for c in r["cases"]:
         if not c["refused"] or c["changed"]:
-            ctx.report("create-overwrites", f"Dataset.create on an existing dataset: refused={c['refused']} changed files={c['changed']}", {"mode": "create", "case": c})
+            ctx.report("create-overwrites", f"Dataset.create on an existing dataset (directory spelled as {c.get('spelling')}): refused={c['refused']} changed files={c['changed']}", {"mode": "create", "case": c, "seed": ctx.seed, "n": ctx.scale(6, 40)})
     ctx.coverage["create_refused"] = len(r["cases"])
 
 
 def replay(ctx, rp):
+    if rp["replay"].get("mode") == "create":
+        r = common.run_impl("create_run.py", {"n": rp["replay"].get("n", 6), "seed": rp["replay"].get("seed", 0)})
+        bad = [c for c in r["cases"] if not c["refused"] or c["changed"]]
+        print(json.dumps(bad)[:1500])
+        return not bad
     h = rp["replay"].get("history")
     if not h:
         print("no concrete input in this replay file:", rp["replay"].get("unchecked") or rp["replay"].get("case"))
